@@ -58,7 +58,12 @@ BODY_VARIANTS = [
      'script-attrs': [('type', "''")]},                     # an empty type still means script
     {'comment': '<!---->', 'cdata': '<![CDATA[]]>', 'pi': '<?php echo "?><b>in</b>" \'?>\'; ??>', 'script': '<', 'style': '</ <', 'text': 't',
      'script-attrs': [('type', '""'), ('defer', None)]},
+    dict(BODY, **{'script': '<p> </div> <b>', 'script-attrs': [('type', '""')]}),      # an empty type, a body that looks like markup
 ]
+
+
+def uses_kind(forest, kind):
+    return any(k == kind or uses_kind(ch, kind) for k, ch, _ in forest)
 
 
 def uses_body(forest):
